@@ -122,6 +122,7 @@ type PkgSpec struct {
 	FieldTags    []*CallersRule // "fieldtag T.f KEY VALUE"
 	InitValues   []*CallersRule // "initvalues VAR all|some RE": Callee = VAR, Allowed = {mode, re}
 	StoredFields []*CallersRule // "storedfields T1, T2": Allowed holds the type names
+	FrozenAfter   []*CallersRule // "frozenafter F : CALLEE": Allowed[0] is F
 	NeverAssigned []*CallersRule // "neverassigned T.f, T.g": Allowed holds the fields
 	Axioms    []*FuncSpec
 }
@@ -322,6 +323,17 @@ func parseSpecFile(path string, ps *PkgSpec, trustedFile bool) error {
 				ts = append(ts, strings.TrimSpace(a))
 			}
 			ps.StoredFields = append(ps.StoredFields, &CallersRule{Allowed: ts, Label: label, Tags: tags, File: path, Line: ln})
+			cur = nil
+		case strings.HasPrefix(t, "frozenafter "):
+			// frozenafter F : CALLEE #label @tags   in function F nothing reachable after a call of CALLEE writes into a
+			// map or through a field, element or pointer (only F's own variable and result cells are assigned): what was
+			// handed to CALLEE (signed, say) is what F returns
+			text, label, tags := splitLabelTags(" " + strings.TrimPrefix(t, "frozenafter "))
+			parts := strings.SplitN(text, ":", 2)
+			if len(parts) != 2 {
+				return fmt.Errorf("%s:%d: frozenafter F : CALLEE", path, ln)
+			}
+			ps.FrozenAfter = append(ps.FrozenAfter, &CallersRule{Callee: strings.TrimSpace(parts[1]), Allowed: []string{strings.TrimSpace(parts[0])}, Label: label, Tags: tags, File: path, Line: ln})
 			cur = nil
 		case strings.HasPrefix(t, "neverassigned "):
 			// neverassigned T.f, T.g #label @tags   no function of /repo stores to the named fields (they are set by
